@@ -458,3 +458,16 @@ func ReplayFile(t *testing.T, path string) (reproduced bool, detail string) {
 	}
 	return reproduced, sb.String()
 }
+
+// runAs executes f on a goroutine tagged with the given generation (code of the system under test always runs on
+// goroutines of its generation, like a process's own threads) and waits for it to return. It reports false if the
+// generation was frozen (killed) before f returned.
+func runAs(name string, gen int, f func()) bool {
+	done := make(chan struct{})
+	simrt.GoNamed(name, gen, func() {
+		f()
+		close(done)
+	})
+	simrt.Recv("runAs "+name, done)
+	return true
+}
